@@ -33,7 +33,7 @@ impl Monitor for C06 {
         vec![gen("single-fault", tier.pick(600, 200_000, 3)), gen("double-fault", tier.pick(60, 30_000, 0)), gen("expiry", tier.pick(300, 50_000, 2)), gen("long-silence", tier.pick(54, 2_000, 0))]
     }
     fn rule(&self) -> String {
-        "single-fault: a base history of 3-10 transactions over {silent, RX1 hit, RX2 hit, invalid frame, garbage, Class C downlink, confirmed+ACK, confirmed silent, oversized frame in RX1/RX2 (also after a confirmed uplink), RX1 hit carrying LinkADRReq with NbTrans 2..15 and other MAC commands} is first run fault-free to count its K radio calls, then re-run K times with a radio error injected at call k (tx/setup_rx/rx_single/rx_continuous/low_power, nb: TxRequest/RxRequest/CancelRx/Phy), the application carrying on with the next sends; double-fault: two fault positions; expiry: sessions starting at 2^32-4..2^32-1; long-silence: 100-170 unanswered uplinks in a row (the ADR back-off bookkeeping at 64/96/128 unanswered uplinks, at the data-rate floor). Every data frame handed to the radio is decoded by the reference codec; counters must be strictly increasing until SessionExpired. Class = (front-end, history shape, fault call kind, fault position class, start class).".into()
+        "single-fault: a base history of 3-10 transactions over {silent, RX1 hit, RX2 hit, invalid frame, garbage, Class C downlink, confirmed+ACK, confirmed silent, oversized frame in RX1/RX2 (also after a confirmed uplink), RX1 hit carrying LinkADRReq with NbTrans 2..15 and other MAC commands} is first run fault-free to count its K radio calls, then re-run K times with a radio error injected at call k (tx/setup_rx/rx_single/rx_continuous/low_power, nb: TxRequest/RxRequest/CancelRx/Phy), the application carrying on with the next sends; double-fault: two fault positions (12 random pairs and every pair of consecutive radio calls); expiry: sessions starting at 2^32-4..2^32-1; long-silence: 100-170 unanswered uplinks in a row (the ADR back-off bookkeeping at 64/96/128 unanswered uplinks, at the data-rate floor). Every data frame handed to the radio is decoded by the reference codec; counters must be strictly increasing until SessionExpired. Class = (front-end, history shape, fault call kind, fault position class, start class).".into()
     }
     fn assumptions(&self) -> Vec<String> {
         vec![
@@ -45,7 +45,7 @@ impl Monitor for C06 {
         if tier == Tier::Sanitizer {
             vec!["uplinks_decoded"]
         } else {
-            vec!["uplinks_decoded", "faults_injected", "fault_tx", "fault_rx_setup", "fault_rx", "session_expired_reported", "counter_crossed_16bit", "mac_command_steps"]
+            vec!["uplinks_decoded", "faults_injected", "fault_tx", "fault_rx_setup", "fault_rx", "session_expired_reported", "counter_crossed_16bit", "mac_command_steps", "adjacent_double_faults"]
         }
     }
 
@@ -72,6 +72,12 @@ impl Monitor for C06 {
                         let b = rng.below(k_calls as u64) as usize;
                         run_history(front, reg, start, &steps, &[a.min(b), a.max(b) + 1], seed, col, "double");
                     }
+                    // ... and every pair of consecutive radio calls failing (the clean-up after a failed
+                    // call fails as well)
+                    for k in 0..k_calls {
+                        run_history(front, reg, start, &steps, &[k, k + 1], seed, col, "double");
+                    }
+                    col.event("adjacent_double_faults");
                 }
             }
             "long-silence" => {
@@ -156,6 +162,8 @@ fn run_history(front: Front, reg: regions::Reg, start: u32, steps: &[Step], faul
     for (i, st) in steps.iter().enumerate() {
         // arm the next fault (single-shot, absolute radio-call index)
         dev.log.borrow_mut().fault_at = next_fault;
+        // consecutive positions are armed together: the second may fall into the same transaction
+        dev.log.borrow_mut().fault_also = if faults.len() == 2 && faults[1] == faults[0] + 1 { Some(faults[1]) } else { None };
         let payload = [i as u8, 0xC0, (i * 7) as u8];
         let mut script = Script::default();
         if front == Front::Nb && intr_rng.chance(1, 3) {
